@@ -492,6 +492,87 @@ fn prefilter(args: &[String]) {
                 }
             }
         }
+        // Class-based (chain) context lookups whose input class is WIDER than the subtable's coverage: the coverage
+        // test of the subtable, not the digest, decides whether the subtable applies.  A glyph of the class that is not
+        // covered but whose id agrees with a covered one in all three digest patterns passes the prefilter; its twin
+        // that does not collide is filtered out.  With the prefilter off both reach the subtable: any subtable that
+        // relies on the digest for the coverage test shows as an on/off difference.
+        {
+            let mut r2 = Rng::new(seed ^ 0xC0DE_10);
+            for fk in 0..120u32 {
+                let ng = 200u16;
+                let mut spec = FontSpec::basic(ng);
+                let ncov = r2.range(1, 3) as usize;
+                let mut covered: Vec<u16> = (0..ncov).map(|_| r2.range(2, 120) as u16).collect();
+                covered.sort();
+                covered.dedup();
+                // uncovered members of class 1: digest twins of covered glyphs (same low bits in every pattern: +64 keeps
+                // bits 0..5, shift-4 and shift-9 patterns mostly differ - so take +512k variants too) and unrelated glyphs
+                let mut class1: Vec<u16> = covered.clone();
+                for c in &covered {
+                    for d in [64u16, 128, 1, 16] {
+                        if c + d < ng - 1 && r2.chance(2, 3) {
+                            class1.push(c + d);
+                        }
+                    }
+                }
+                class1.push(r2.range(121, ng as u64 - 2) as u16);
+                class1.sort();
+                class1.dedup();
+                let cd = ClassDef::from_pairs(&class1.iter().map(|g| (*g, 1u16)).collect::<Vec<_>>());
+                let target = 199u16;
+                let nested = Lookup::one(SubstSubtable::Single2 { coverage: Coverage::Glyphs(class1.clone()), substitutes: class1.iter().map(|_| target).collect() });
+                let rule_sets_ctx = vec![None, Some(vec![SeqRule { input: vec![], lookups: vec![SeqLookup { sequence_index: 0, lookup_index: 1 }] }])];
+                let rule_sets_chain = vec![None, Some(vec![ChainRule { backtrack: vec![], input: vec![], lookahead: vec![], lookups: vec![SeqLookup { sequence_index: 0, lookup_index: 1 }] }])];
+                let st = if fk % 2 == 0 {
+                    SubstSubtable::ChainContext2 { coverage: Coverage::Glyphs(covered.clone()), backtrack_classes: cd.clone(), input_classes: cd.clone(), lookahead_classes: cd.clone(), rule_sets: rule_sets_chain }
+                } else {
+                    SubstSubtable::Context2 { coverage: Coverage::Glyphs(covered.clone()), class_def: cd.clone(), rule_sets: rule_sets_ctx }
+                };
+                spec.gsub = Some(Layout::with_features(vec![(*b"calt", vec![0])], vec![Lookup::one(st), nested]));
+                let data = build(&spec);
+                let mut texts: Vec<Vec<u16>> = class1.iter().map(|g| vec![*g]).collect();
+                texts.push(class1.clone());
+                texts.push(vec![3, *class1.last().unwrap(), class1[0], 4]);
+                for t in texts {
+                    let req = Req { text: t.iter().enumerate().map(|(i, g)| (pua(*g as u32 - 1), i as u32)).collect(), flags: 3, ..Default::default() };
+                    let d1 = data.clone();
+                    let rq = req.clone();
+                    VERIF_PREFILTER_OFF.store(false, Ordering::SeqCst);
+                    let on = catch(move || { let f = rustybuzz::Face::from_slice(&d1, 0).unwrap(); shape_req(&f, &rq) });
+                    let d2 = data.clone();
+                    let rq = req.clone();
+                    VERIF_PREFILTER_OFF.store(true, Ordering::SeqCst);
+                    let off = catch(move || { let f = rustybuzz::Face::from_slice(&d2, 0).unwrap(); shape_req(&f, &rq) });
+                    VERIF_PREFILTER_OFF.store(false, Ordering::SeqCst);
+                    shapes += 1;
+                    gen_shapes += 1;
+                    if let Ok(o) = &off {
+                        if o.iter().any(|g| g.gid == target as u32) {
+                            nontrivial += 1;
+                        }
+                        // the subtable applies to covered glyphs only, whatever the class says
+                        for (g, inp) in o.iter().zip(t.iter()) {
+                            if o.len() == t.len() && (g.gid == target as u32) != covered.contains(inp) {
+                                diffs += 1;
+                                if diffs <= 10 {
+                                    println!("diff font=generated:class-wider-than-coverage-{} req=[{}] covered={:?} class1={:?} on=- off={}", fk, fmt_req(&req), covered, class1, fmt_g(o));
+                                }
+                                break;
+                            }
+                        }
+                    }
+                    if on != off {
+                        diffs += 1;
+                        if diffs <= 10 {
+                            println!("diff font=generated:class-wider-than-coverage-{} req=[{}] on={} off={}", fk, fmt_req(&req),
+                                match &on { Ok(g) => fmt_g(g), Err(e) => format!("panic {}", e) },
+                                match &off { Ok(g) => fmt_g(g), Err(e) => format!("panic {}", e) });
+                        }
+                    }
+                }
+            }
+        }
         println!("prefilter-generated shapes={}", gen_shapes);
     }
     println!("prefilter-summary fonts={} shapes={} nontrivial={} diffs={} stale={}", used, shapes, nontrivial, diffs, stale);
